@@ -43,7 +43,10 @@ L0_THOROUGH = [
 
 PROPS = {
     "C01": {
-        "mc": L0_QUICK + L0_THOROUGH,
+        "mc": L0_QUICK + L0_THOROUGH + [
+            algo("AddSub.tla", "AddSub_q.cfg"), algo("AddSub.tla", "AddSub_cal_no_propagate.cfg", expect="violation"),
+            algo("AddSub.tla", "AddSub_cal_no_push.cfg", expect="violation"), algo("AddSub.tla", "AddSub_cal_borrow_only.cfg", expect="violation"),
+            algo("AddSub.tla", "AddSub_t1.cfg", workers=14, tiers=T), algo("AddSub.tla", "AddSub_t2.cfg", workers=14, heap="10g", tiers=T)],
         "drivers": [drv("addsub", "debug"), drv("addsub", "release", tiers=T)],
     },
     "C02": {
